@@ -478,17 +478,26 @@ def build_instance_tree(
                     if not isinstance(el_arg, ast.ClassModification):
                         # If the value is being set, we make a new class
                         # modification with attribute name "value" that we
-                        # pick up later in modify_symbol()
+                        # pick up later in modify_symbol().  A dotted name such
+                        # as "x.start = 1" sets the named attribute instead.
 
                         # TODO: Figure out if it's easier to directly do this
                         # in the parser.
+                        attribute = "value"
+                        if arg.value.component.child:
+                            attribute = arg.value.component.child[0].name
                         vmod_arg = ast.ClassModificationArgument()
                         vmod_arg.scope = arg.scope
                         vmod_arg.value = ast.ElementModification()
-                        vmod_arg.value.component = ast.ComponentRef(name="value")
+                        vmod_arg.value.component = ast.ComponentRef(name=attribute)
                         vmod_arg.value.modifications = [el_arg]
                         sym_mod.arguments.append(vmod_arg)
                     else:
+                        # Nested spelling "x(start = 1)": the inner arguments were
+                        # written in the same scope as the enclosing argument.
+                        for inner_arg in el_arg.arguments:
+                            if inner_arg.scope is None:
+                                inner_arg.scope = arg.scope
                         sym_mod.arguments.extend(el_arg.arguments)
 
             if sym.class_modification:
@@ -526,21 +535,41 @@ def build_instance_tree(
                         if not isinstance(el_arg, ast.ClassModification):
                             # If the value is being set, we make a new class
                             # modification with attribute name "value" that we
-                            # pick up later in modify_symbol()
+                            # pick up later in modify_symbol().  A dotted name such
+                            # as "x.start = 1" sets the named attribute instead.
 
                             # TODO: Figure out if it's easier to directly do this
                             # in the parser.
+                            attribute = "value"
+                            if arg.value.component.child:
+                                attribute = arg.value.component.child[0].name
                             vmod_arg = ast.ClassModificationArgument()
                             vmod_arg.scope = arg.scope
                             vmod_arg.value = ast.ElementModification()
-                            vmod_arg.value.component = ast.ComponentRef(name="value")
+                            vmod_arg.value.component = ast.ComponentRef(name=attribute)
                             vmod_arg.value.modifications = [el_arg]
                             sym_mod.arguments.append(vmod_arg)
                         else:
+                            for inner_arg in el_arg.arguments:
+                                if inner_arg.scope is None:
+                                    inner_arg.scope = arg.scope
                             sym_mod.arguments.extend(el_arg.arguments)
-                else:
+                elif arg.value.component.child:
                     arg.value.component = arg.value.component.child[0]
                     sym_mod.arguments.append(arg)
+                else:
+                    # Nested spelling "a(x(start = 1))": pass the inner arguments
+                    # along, in the scope the enclosing argument was written in.
+                    for el_arg in arg.value.modifications:
+                        if not isinstance(el_arg, ast.ClassModification):
+                            raise Exception(
+                                "Cannot assign a value to component '{}' of non-elementary "
+                                "type".format(sym_name)
+                            )
+                        for inner_arg in el_arg.arguments:
+                            if inner_arg.scope is None:
+                                inner_arg.scope = arg.scope
+                            sym_mod.arguments.append(inner_arg)
 
             if sym.class_modification:
                 sym.class_modification.arguments.extend(sym_mod.arguments)
